@@ -304,7 +304,7 @@ filelock.FileLock = Rec
 import numpy as np
 from toasty.image import Image, ImageMode
 from toasty.pyramid import PyramidIO, Pos
-root = tempfile.mkdtemp(prefix="verif-lockid-", dir=%(scratch)r)
+root = os.environ["VERIF_LOCKID_ROOT"]  # the same directory for every child, possibly reached through a symlink
 out = {}
 for scheme in ("L/Y/YX", "LXY"):
     pio = PyramidIO(os.path.join(root, scheme.replace("/", "")), scheme=scheme, default_format="npy")
@@ -312,9 +312,7 @@ for scheme in ("L/Y/YX", "LXY"):
         del used[:]
         with pio.update_image(Pos(*pos), masked_mode=ImageMode.F32, default="masked") as img:
             pass
-        out["%%s %%r" %% (scheme, pos)] = [os.path.relpath(u, root) for u in used]
-import shutil
-shutil.rmtree(root, ignore_errors=True)
+        out["%%s %%r" %% (scheme, pos)] = [os.path.relpath(os.path.realpath(u), os.path.realpath(root)) for u in used]
 print("VERIF-LOCKID " + json.dumps(out, sort_keys=True))
 """
 
@@ -330,25 +328,40 @@ def lock_identity(part):
     from vt.fixtures import scratch_root
 
     verif = os.path.dirname(os.path.dirname(os.path.abspath(__file__)))
+    import shutil
+    import tempfile
+
     code = _LOCKID_CHILD % {"verif": verif, "scratch": scratch_root()}
     seen = {}
+    base = tempfile.mkdtemp(prefix="verif-lockid-", dir=scratch_root())
+    real = os.path.join(base, "pyramid")
+    os.makedirs(real)
+    os.symlink(real, os.path.join(base, "link"))
+    # three unrelated interpreters: different string-hash salts, different temporary directories, and one of them
+    # reaching the pyramid through a symbolic link
+    variants = {"1": (real, "tmp-a"), "2": (os.path.join(base, "link"), "tmp-b"), "31337": (real, "tmp-c")}
     for hs in ("1", "2", "31337"):
         env = dict(os.environ)
         env["PYTHONHASHSEED"] = hs
+        env["VERIF_LOCKID_ROOT"] = variants[hs][0]
+        env["TMPDIR"] = os.path.join(base, variants[hs][1])
+        os.makedirs(env["TMPDIR"], exist_ok=True)
         p = subprocess.run([sys.executable, "-W", "ignore", "-c", code], cwd=verif, env=env, stdout=subprocess.PIPE, stderr=subprocess.PIPE, text=True, timeout=600)
         line = [l for l in p.stdout.splitlines() if l.startswith("VERIF-LOCKID ")]
         part.case(nontrivial=True)
         if p.returncode != 0 or not line:
             part.notes.append("lock-identity child (PYTHONHASHSEED=%s) failed: %s" % (hs, (p.stderr or p.stdout)[-400:]))
             part.counters["driver_crashes"] = part.counters.get("driver_crashes", 0) + 1
+            shutil.rmtree(base, ignore_errors=True)
             return
         seen[hs] = json.loads(line[-1][len("VERIF-LOCKID "):])
+    shutil.rmtree(base, ignore_errors=True)
     ref = seen["1"]
     cfg = {"lock_identity": True}
     for hs, d in seen.items():
         if d != ref:
             diff = [k for k in ref if d.get(k) != ref[k]]
-            part.violation("lock-identity/differs-between-interpreters", "%r: an interpreter started with PYTHONHASHSEED=%s locks %r for tile %s, one started with PYTHONHASHSEED=1 locks %r" % (cfg, hs, d.get(diff[0]), diff[0], ref[diff[0]]), cfg)
+            part.violation("lock-identity/differs-between-interpreters", "%r: an unrelated interpreter (PYTHONHASHSEED=%s, its own TMPDIR, pyramid possibly reached through a symlink) locks %r for tile %s, another one locks %r" % (cfg, hs, d.get(diff[0]), diff[0], ref[diff[0]]), cfg)
             return
     for scheme in ("L/Y/YX", "LXY"):
         ks = [k for k in ref if k.startswith(scheme + " ")]
